@@ -17,6 +17,10 @@ CLAIMED = {
          "no order is demanded between two simultaneously alive associations of one client (a stale close notification can start a second one); datagrams queued in an association that ends are excusably lost; goroutine exit at shutdown is not part of the statement and not checked"),
  "C03": ("§6 C03", "Seeded simulation of the real proxy handler (dial, chained TeeReader pump, per-upstream copiers, CloseWrite propagation, deferred cleanup) behind optional matcher/consume/throttle/proxy_protocol/tls handlers against 1..3 scripted upstream peers; reference streams in both directions, EOF propagation in either order while the other direction still flows, handler return, upstream closure and goroutine census, bounded liveness; faults (resets, stalls, early full close) in a separate configuration with prefix-only oracles.",
          "TLS-terminated downstream is explored with a single peer (two relay goroutines writing one tls.Conn contend on a sync.Mutex that synctest cannot see); UDP up/downstream of the proxy is not in this world"),
+ "C10": ("§6 C10", "The shipped selection policies run inside the real proxy handler behind a recording wrapper, in a simulated world with outages, health checks, limits and bursts of concurrent connections; at every Select the result is checked against the set the shipped available() reports at that instant (membership, none iff empty, first, round-robin fairness per window, ip_hash determinism and stability under removals, least_conn minimum); empty pools by direct invocation; panics are violations.",
+         "availability is taken from the implementation (its correctness is C11's subject); Select events during which availability changed concurrently are skipped; math/rand is seeded per run"),
+ "C11": ("§6 C11", "Same world; the recorded history of dials, probes, selections, connection lifetimes and handler durations on the simulated clock is checked against a reference model of passive failure windows, active-check convergence, retry spacing/duration and connection limits; counters read through an accessor must never be negative.",
+         "instants exactly on a window edge are skipped; limits are checked for connections in their relay phase; outages are 'connection refused' (net.Dial has no timeout, a blackhole would mean the OS default)"),
 }
 NA = {
  "C07": "pure function of the ClientHello bytes (differential input testing against crypto/tls): no schedule, clock, fault or interleaving for a simulator to decide; its one schedule-dependent clause is exercised under C06",
@@ -24,7 +28,7 @@ NA = {
  "C15": "Caddyfile->JSON adaptation and JSON round trip are pure single-threaded functions of the configuration text",
  "C18": "FromBytes/ToBytes inverse laws are pure functions of byte strings",
 }
-PENDING = ["C04","C06","C08","C10","C11","C12","C16"]
+PENDING = ["C04","C06","C08","C12","C16"]
 m = {
  "version": 1,
  "setup_cmd": "./check build",
